@@ -158,6 +158,21 @@ pub fn check_line(opts: &Opts, lc: &LineCase) -> Result<(), String> {
             }
         }
     }
+    // (1b) a line that is not a frame leaves the table untouched also when it arrives many times in a row with
+    // delete_after 0 (if it counted towards the sweep schedule, the sweep would empty the table)
+    if frame.is_none() {
+        let mut o0 = opts.clone();
+        o0.d = 0;
+        let t0 = run::new_table();
+        run::run_lines(&o0, &t0, &prefix_lines()).map_err(|e| format!("reader failed on the prefix: {:?}", e))?;
+        let b0 = run::snapshot(&t0);
+        let many: Vec<String> = std::iter::repeat(deco.clone()).take(25).collect();
+        run::run_lines(&o0, &t0, &many).map_err(|e| format!("reader failed on line {:?}: {:?}", deco, e))?;
+        let a0 = run::snapshot(&t0);
+        if a0 != b0 {
+            return Err(format!("25 copies of the non-frame line {:?} changed the table (delete_after 0): {}", deco, run::table_diff(&b0, &a0).join("; ")));
+        }
+    }
     // (3c) the same line as the unterminated last line of the input (no line feed after it)
     {
         let t3 = run::new_table();
